@@ -247,6 +247,19 @@ impl RScn
         pause();
     }
 
+    /*  hand-modification of a target by putting a symbolic link in its place: the content readable at the path is c (the link's
+        own file lives in the scenario directory under a name no rule mentions) */
+    fn edit_link(&mut self, p : &str, c : &str, n : usize)
+    {
+        let ext = self.dir.join(format!(".lnk{}", n));
+        if std::fs::write(&ext, c).is_err() { return; }
+        let _ = std::fs::remove_file(self.dir.join(p));
+        if std::os::unix::fs::symlink(&ext, self.dir.join(p)).is_err() { let _ = std::fs::write(self.dir.join(p), c); }
+        self.learn(c.as_bytes());
+        self.out.push(json!({"a" : "edit", "p" : p, "c" : c}));
+        pause();
+    }
+
     fn paths_in(&self, d : &str) -> Vec<String> { let pre = format!("{}/", d); self.ord.iter().filter(|p| p.starts_with(&pre)).cloned().collect() }
     fn top_dirs(&self) -> Vec<String> { let mut v : Vec<String> = self.ord.iter().filter(|p| p.contains('/')).map(|p| p.split('/').next().unwrap().to_string()).collect(); v.dedup(); v }
     fn rmdir(&mut self, d : &str)
@@ -471,6 +484,7 @@ pub fn real_histories(bin : &str, base : &str, n : usize, seed : u64, prof : &st
             let t = tw.invoke(is_build, g, None, 0);
             scn.invoke(is_build, g, if is_build { Some(t) } else { None }, sink);
         };
+        let mut nlink = 0usize;
         for _ in 0..steps
         {
             match rng.below(if with_dir { 17 } else { 14 })
@@ -480,7 +494,12 @@ pub fn real_histories(bin : &str, base : &str, n : usize, seed : u64, prof : &st
                 0..=3 => { let g = match rng.below(10) { 0..=5 => "".to_string(), 6 => "nosuch".to_string(), _ => targets[rng.below(targets.len())].clone() }; invoke(&mut scn, &mut tw, &mut rng, true, &g); },
                 4 | 5 => { let g = if rng.chance(1, 2) { "".to_string() } else { targets[rng.below(targets.len())].clone() }; invoke(&mut scn, &mut tw, &mut rng, false, &g); },
                 6 | 7 => { let l = &leaves[rng.below(leaves.len())]; let c = format!("S{}", rng.below(3)); for s in [&mut scn, &mut tw] { s.edit(l, &c); } },
-                8 => { let t = &targets[rng.below(targets.len())]; let c = format!("J{}", rng.below(3)); if scn.dir.join(t).is_file() { scn.edit(t, &c); } if tw.dir.join(t).is_file() { tw.edit(t, &c); } },
+                8 =>
+                {
+                    let t = &targets[rng.below(targets.len())]; let c = format!("J{}", rng.below(3));
+                    let link = rng.chance(1, 4); nlink += 1;
+                    for s in [&mut scn, &mut tw] { if s.dir.join(t).is_file() { if link { s.edit_link(t, &c, nlink); } else { s.edit(t, &c); } } }
+                },
                 9 => { let t = &targets[rng.below(targets.len())]; for s in [&mut scn, &mut tw] { if s.dir.join(t).is_file() { std::fs::remove_file(s.dir.join(t)).unwrap(); s.out.push(json!({"a" : "del", "p" : t})); pause(); } } },
                 10 => { let k2 = rng.below(rules.len()); rules[k2].id = format!("c{}v{}", k2, rng.below(3)); if rng.chance(1, 3) { rules[k2].rev = !rules[k2].rev; } for s in [&mut scn, &mut tw] { s.set_rules(&rules); } },
                 11 => { let t = &targets[rng.below(targets.len())]; for s in [&mut scn, &mut tw] { if s.dir.join("zz").is_file() && std::fs::rename(s.dir.join("zz"), s.dir.join(t)).is_ok() { s.out.push(json!({"a" : "mv", "p" : "zz", "q" : t})); pause(); } } },
